@@ -8,7 +8,7 @@
 import MW.Lemmas.SecretsInv
 import MW.Lemmas.KsRefineOps
 namespace MW.KsRefine
-open MW MW.Model.Secrets MW.Lemmas.SecretsInv
+open MW MW.Model.Secrets MW.Model.KsBytes MW.Lemmas.SecretsInv
 
 def noPair : Term → Bool
   | .secret _ => true
